@@ -111,8 +111,15 @@ def examine(ctx, recipe, items) -> None:
                                     ('wkb', geometry.write_wkb, shapely.from_wkb)):
             p = os.path.join(wd, 'm.' + fmt)
             writer(ds, p)
-            geom = reader(open(p, 'rb').read())
-            members = [ring_of_coords(g.exterior.coords) for g in geom.geoms]
+            try:
+                geom = reader(open(p, 'rb').read())
+                members = [ring_of_coords(g.exterior.coords) for g in geom.geoms]
+            except Exception as e:
+                ctx.oracle_fail(f'{fmt}-unreadable', {**desc, 'format': fmt},
+                                f'the {fmt.upper()} file cannot be read back: {type(e).__name__}: {str(e)[:200]}')
+                line = f'members {rings}'
+                items.append((line, 'UNREADABLE', {**desc, 'op': line, 'format': fmt}))
+                continue
             out = '|'.join(S.ring_str(m) for m in members) or '(none)'
             line = f'members {rings}'
             items.append((line, out, {**desc, 'op': line, 'format': fmt}))
